@@ -27,6 +27,13 @@ func init() {
 			}
 			return 1500
 		},
+		// short batches at the thorough tier so that the per-child watchdog is never the limiting factor on a loaded machine
+		Batch: func(tier string) int {
+			if tier == "thorough" {
+				return 100
+			}
+			return 0
+		},
 		Run: func(c *core.Ctx) {
 			if c.Index%5 == 0 {
 				runIdentity(c)
